@@ -86,7 +86,8 @@ def gen_case(rng, tier, index):
                 "float32": "f4", "float64": "f8"}[a["dtype"]]
     return {"kind": "e2e", "hist": hist,
             "op": rng.choice(["sequence", "sequence", "shuffled", "two_iters",
-                              "two_iters", "abandon", "abandon"] +
+                              "two_iters", "abandon", "abandon",
+                              "two_threads", "damaged"] +
                              (["slow_consumer"] if rng.random() < 0.35
                               else [])),
             "pause": 2.5 if tier == "quick" else rng.choice([2.5, 6.0]),
@@ -235,6 +236,47 @@ def run_e2e(case):
                         time.sleep(case.get("pause", 2.5))
                 return ("slow_consumer", got == ref, [i for i, _ in got][:12],
                         [i for i, _ in ref][:12])
+            if op == "two_threads":
+                # two Python threads, each driving its own native iterator
+                # (tf.data's from_generator calls generators from its threads)
+                import threading
+                outs = [None, None]
+                b = splits[-1]
+                refb = dsgen.read_sync(ds, b, attrs)
+
+                def consume(slot, split_):
+                    outs[slot] = ids(ds.as_numpy_iterator_rust(
+                        split=split_, repeat=False, shuffle=0,
+                        file_parallelism=fp))
+
+                ts = [threading.Thread(target=consume, args=(0, a)),
+                      threading.Thread(target=consume, args=(1, b))]
+                for t in ts:
+                    t.start()
+                for t in ts:
+                    t.join()
+                return ("two_threads", outs == [ref, refb],
+                        [[i for i, _ in (o or [])][:8] for o in outs],
+                        [[i for i, _ in ref][:8], [i for i, _ in refb][:8]])
+            if op == "damaged":
+                # an unreadable shard: the Python reader raises; the native
+                # reader must not end the pass normally either
+                victim = table[case["p"] % n]
+                os.unlink(os.path.join(env.root, victim["path"]))
+                try:
+                    dsgen.read_sync(ds, a, attrs)
+                    py = "ends normally"
+                except Exception:  # pylint: disable=broad-except
+                    py = "raises"
+                try:
+                    got = ids(ds.as_numpy_iterator_rust(
+                        split=a, repeat=False, shuffle=0,
+                        file_parallelism=fp))
+                    rs = f"ends normally after {len(got)} examples"
+                except BaseException as e:  # pylint: disable=broad-except
+                    rs = "raises"
+                return ("damaged", py == "raises" and rs == "raises",
+                        {"python": py, "rust": rs}, {"both": "raise"})
             if op == "shuffled":
                 got = ids(ds.as_numpy_iterator_rust(
                     split=a, repeat=False, shuffle=7, file_parallelism=fp))
@@ -345,7 +387,8 @@ def reach(agg):
     for name in ("out_of_order_completion", "early_drop",
                  "threads_above_tasks", "threads_equal_tasks", "empty_input",
                  "e2e_sequence", "e2e_shuffled", "e2e_two_iters",
-                 "e2e_abandon", "e2e_slow_consumer", "big_endian_declared", "compression_LZ4", "compression_GZIP",
+                 "e2e_abandon", "e2e_slow_consumer", "big_endian_declared",
+                 "e2e_two_threads", "e2e_damaged", "compression_LZ4", "compression_GZIP",
                  "compression_ZLIB", "compression_none"):
         if not p.get(name):
             need.append(f"probe {name} never hit")
